@@ -88,6 +88,9 @@ def right_cols(keycols, n):
         ["rs", "str", [None if i == 1 else "R" + str(i) for i in range(n)]],
         ["rd", "D", ["2001-01-0" + str(i + 1) for i in range(n)]],
         ["p", "str", ["clash" + str(i) for i in range(n)]],
+        # right-hand columns named like DataFrame / dict attributes are ordinary columns too
+        ["count", "i8", [40 + i for i in range(n)]],
+        ["values", "f8", [repr(i + 0.25) for i in range(n)]],
     ]
 
 
@@ -104,13 +107,31 @@ def col_eq_rows(out_col, src_cells, src_dtype, ids):
     return V.col_key(out_col) == (src_dtype, tuple(V.tok(src_cells[i]) for i in ids))
 
 
+class Rec_proxy:
+    """Forwards to the shard recorder but reports violations of the in-place phase with the whole two-phase case."""
+
+    def __init__(self, rec, case):
+        self.rec, self.case2 = rec, case
+
+    def __getattr__(self, name):
+        return getattr(self.rec, name)
+
+    def violation(self, op, clause, case, detail="", cls=None):
+        return self.rec.violation(op, "after-in-place-edit-of-right:" + clause, self.case2, detail, cls)
+
+
 def check_case(case, rec):
     Lc, Rc, by = case["L"], case["R"], case["by"]
+    L = V.frame(Lc)
+    R = V.frame(Rc)
+    check_joins_on(L, R, Lc, Rc, by, case["joins"], rec, case)
+
+
+def check_joins_on(L, R, Lc, Rc, by, joins, rec, case=None):
+    case = case or {"joins": joins}
     by_arg = [tuple(b) if isinstance(b, list) else b for b in by]
     lk = [b if isinstance(b, str) else b[0] for b in by]
     rk = [b if isinstance(b, str) else b[1] for b in by]
-    L = V.frame(Lc)
-    R = V.frame(Rc)
     lb, rb = V.frame_key(L), V.frame_key(R)
     rec.state(lb)
     rec.state(rb)
@@ -125,7 +146,7 @@ def check_case(case, rec):
     extras = [n for n in rnames if n not in rk and n not in lnames]
     allk = lrows + rrows
     nontrivial = nl > 0 and nr > 0 and (any(None in t for t in allk) or len(set(map(repr, lrows))) < nl or len(set(map(repr, rrows))) < nr)
-    for join in case["joins"]:
+    for join in joins:
         rec.case((lb, rb, repr(by), join), nontrivial)
         rec.trans()
         one = {"L": Lc, "R": Rc, "by": by, "joins": [join]}
@@ -247,6 +268,15 @@ def check_case(case, rec):
             rec.violation(join, "malformed-result", one, f"{type(e).__name__}: {e}")
     # semi/anti partition the left frame: implied by the two checks above (both compared with the same match vector)
     rec.sample({"L": Lc, "R": Rc, "by": by, "joins": case["joins"][:1]})
+    # second phase (skipped inside itself): the same right-hand OBJECT, edited in place, must be joined as it is now
+    if case.get("poke") and nr >= 2 and len(rk) == 1 and not V.same_value(rc[rk[0]][0], rc[rk[0]][nr - 1]):
+        col = R[rk[0]]
+        col[0] = col[nr - 1]
+        toks = list(Rc[0][2])
+        toks[0] = toks[nr - 1]
+        R2c = [[Rc[0][0], Rc[0][1], toks]] + [list(c) for c in Rc[1:]]
+        sub = Rec_proxy(rec, {"L": Lc, "R": Rc, "by": by, "joins": case["joins"], "poke": True})
+        check_joins_on(L, R, Lc, R2c, by, ["left_join", "semi_join", "anti_join", "inner_join"], sub)
 
 
 def run_shard(shard, rec):
@@ -266,7 +296,7 @@ def run_shard(shard, rec):
                 for rt in rseqs:
                     case = {"L": left_cols([["k", rkind, list(lt)]], m),
                             "R": right_cols([[rname, rkind, rt]], len(rt)),
-                            "by": by, "joins": JOINS}
+                            "by": by, "joins": JOINS, "poke": True}
                     check_case(case, rec)
     else:
         k1, k2 = shard["kinds"]
